@@ -1,5 +1,7 @@
 //! Borsh support for `HipByt`.
 
+use alloc::vec::Vec;
+
 use borsh::io::{self};
 use borsh::{BorshDeserialize, BorshSerialize};
 
@@ -15,15 +17,13 @@ impl<B: Backend> BorshDeserialize for HipByt<'_, B> {
         if len == 0 {
             Ok(Self::new())
         } else {
-            let mut result = Self::with_capacity(len);
-            let slice = result.spare_capacity_mut();
-            for byte in slice.iter_mut().take(len) {
-                byte.write(u8::deserialize_reader(reader)?);
+            // the length prefix is not trusted for the allocation:
+            // reserve a bounded amount up front and grow as bytes arrive
+            let mut vec = Vec::with_capacity(len.min(4096));
+            for _ in 0..len {
+                vec.push(u8::deserialize_reader(reader)?);
             }
-            unsafe {
-                result.set_len(len);
-            }
-            Ok(result)
+            Ok(Self::from(vec))
         }
     }
 }
